@@ -20,10 +20,12 @@ def run(repo: Repo, tier, rep: Report):
     rep.ob("O.generate_interactions", repo.construct(EDGELIST, "generate_interactions"), "one row per stream event")
     n = check_kinds(repo, rep, functions={"parse_interactions", "generate_interactions"})
     rep.floor("typed sinks (interaction reader)", n, 3)
-    from sa.fileformat import check_file_format, check_open_file_decorator
-    m = check_file_format(repo, rep, "interactions")
-    m += check_open_file_decorator(repo, rep)
-    rep.floor("file-format rule instances (interactions)", m, 30)
+    from sa.fileformat import check_file_format
+    from sa.line_model import check_parser, check_decorator
+    m = check_file_format(repo, rep, "interactions", parts=("writer", "reader"))
+    rep.floor("writer/reader table instances (interactions)", m, 12)
+    rep.floor("parser cases interpreted", check_parser(repo, rep, "interactions"), 100)
+    rep.floor("open_file cases interpreted", check_decorator(repo, rep), 10)
 
     from sa.core import AnalysisError
     impure = []
